@@ -1,1 +1,214 @@
-/- C09 — property theorems (stub: the slice is not built yet). -/
+import GB.C09.Proofs
+/-
+  C09 — property theorems over the model of the field-level JSON codec (GB/C09/Model.lean, the code
+  after fixes D9a–D9h) and the canonical proto3 JSON mapping for one field (GB/C09/Spec.lean).
+  `ops : FloatOps` is the float environment (strconv.ParseFloat, encoding/json float formatting);
+  theorems that depend on it take `FloatLaws ops` as a hypothesis (an instance is given at the end).
+-/
+open GB GB.C09
+
+/-- No JSON value offered for any scalar-kinded field (singular, repeated, map with any key kind) makes the
+    decoder panic — in particular an unknown enum name under DiscardUnknown no longer reaches
+    `Set`/`Append` with an invalid `Value`. -/
+theorem C09_no_panic (ops : FloatOps) (o : Opts) (c : Card) (k : Kind) (j : J) :
+    decode ops o c k j ≠ .panic :=
+  decode_ne_panic ops o c k j
+
+/-- Whenever the decoder accepts a JSON value that canonical proto3 JSON parsing also accepts,
+    the field reads back the same value (all kinds, all cardinalities, all key kinds, all trees). -/
+theorem C09_agrees (ops : FloatOps) (hl : FloatLaws ops) (o : Opts) (c : Card) (k : Kind) (j : J) (f f' : Field)
+    (hd : decode ops o c k j = .ok f) (hc : canon ops o c k j = some (.ok f')) :
+    f.read k = f'.read k := by
+  rcases decode_canon ops hl o c k j _ hc with e | ⟨g, g', e1, e2, e3⟩
+  · rw [hd] at e; cases e
+  · rw [hd] at e1; injection e1 with e1; injection e2 with e2; subst e1; subst e2; exact e3
+
+/-- Everything canonical proto3 JSON rejects for the field — a value of the wrong JSON type, a fractional or
+    out-of-range number, an unknown enum name without DiscardUnknown, a malformed map key — is rejected with
+    an error: nothing is coerced or truncated. -/
+theorem C09_rejects (ops : FloatOps) (hl : FloatLaws ops) (o : Opts) (c : Card) (k : Kind) (j : J)
+    (hc : canon ops o c k j = some .err) : decode ops o c k j = .err := by
+  rcases decode_canon ops hl o c k j _ hc with e | ⟨g, g', _, e2, _⟩
+  · exact e
+  · cases e2
+
+/-- Unknown enum names: skipped (field untouched, element/entry left out) when unknowns are discarded,
+    rejected otherwise. -/
+theorem C09_enum_unknown (ops : FloatOps) (o : Opts) (vals : EnumDesc) (nv : Bool) (name : Bytes)
+    (hu : byName vals name = none) :
+    (o.discard = true →
+        decode ops o .sing (.enum vals nv) (.str name) = .ok (.sing none) ∧
+        decode ops o .rep (.enum vals nv) (.arr [.str name]) = .ok (.list []) ∧
+        decode ops o (.map .string) (.enum vals nv) (.obj [([97], .str name)]) = .ok (.map [])) ∧
+    (o.discard = false →
+        decode ops o .sing (.enum vals nv) (.str name) = .err ∧
+        decode ops o .rep (.enum vals nv) (.arr [.str name]) = .err ∧
+        decode ops o (.map .string) (.enum vals nv) (.obj [([97], .str name)]) = .err) := by
+  constructor <;> intro hd <;>
+    simp [decode, unmarshalSingular, unmarshalList, unmarshalMap, listLoop, mapLoop, dedupLast, unmarshalMapKey,
+      unmarshalScalar, hu, hd, Res.bind]
+
+/-- Known names (including aliases) decode to their number. -/
+theorem C09_enum_known (ops : FloatOps) (o : Opts) (vals : EnumDesc) (nv : Bool) (name : Bytes) (n : Int)
+    (hk : byName vals name = some n) :
+    decode ops o .sing (.enum vals nv) (.str name) = .ok (.sing (some (.enum n))) := by
+  simp [decode, unmarshalSingular, unmarshalScalar, hk, Res.bind, protoStore]
+
+/-- Integer fields: any literal that is not an optionally signed run of digits (a fraction, an exponent) is
+    rejected, for numbers and quoted numbers alike; so is every value outside the field's range. -/
+theorem C09_int_exact (ops : FloatOps) (o : Opts) (lit : Bytes) (f : Field)
+    (h : decode ops o .sing .int32 (.num lit) = .ok f) :
+    ∃ n : Int, f = .sing (some (.int n)) ∧ parseInt 32 lit = some n := by
+  simp only [decode, unmarshalSingular, unmarshalScalar, intDecode, jsonNumber] at h
+  cases hp : parseInt 32 lit with
+  | none => simp [hp, Res.bind] at h
+  | some n => simp [hp, Res.bind, protoStore] at h; exact ⟨n, h.symm, rfl⟩
+
+/-- `strconv.ParseInt` accepts exactly sign + digits within range: so what is stored is the exact value. -/
+theorem C09_parseInt_sound (bits : Nat) (lit : Bytes) (n : Int) (hv : isValidNumber lit = true)
+    (h : parseInt bits lit = some n) :
+    ∃ neg ds, plainInt lit = some (neg, ds) ∧ n = (if neg then -(digitsValue ds : Int) else digitsValue ds) ∧
+      -(2 ^ (bits - 1) : Int) ≤ n ∧ n < (2 ^ (bits - 1) : Int) := by
+  have hc := canonIntLit_of_parseInt bits lit n h hv
+  unfold canonIntLit at hc
+  cases hp : plainInt lit with
+  | none =>
+    -- parseInt accepted, so the literal is plain
+    cases lit with
+    | nil => simp [parseInt] at h
+    | cons c rest =>
+      by_cases h45 : c = 45
+      · subst h45
+        simp only [parseInt] at h; simp at h
+        have hall : rest.all isDigit = true := by simpa [List.all_eq_true] using h.2.1
+        have hne : rest.isEmpty = false := by cases rest <;> simp_all
+        simp [plainInt, hall, hne] at hp
+      · by_cases h43 : c = 43
+        · subst h43; rw [isValidNumber_plus] at hv; cases hv
+        · have e1 : (c == 45) = false := by simpa using h45
+          have e2 : (c == 43) = false := by simpa using h43
+          simp only [parseInt] at h; simp [e1, e2] at h
+          have hall : rest.all isDigit = true := by simpa [List.all_eq_true] using h.1.2
+          simp [plainInt, e1, hall, h.1.1] at hp
+  | some p =>
+    obtain ⟨neg, ds⟩ := p
+    refine ⟨neg, ds, rfl, ?_⟩
+    simp only [hp] at hc
+    have hX : (0:Int) < 2 ^ (bits - 1) := Int.pow_pos (by decide)
+    cases neg <;> simp at hc
+    · split at hc
+      · injection hc with hc; injection hc with hc; injection hc with hc; injection hc with hc
+        rename_i hr
+        have hr' : (digitsValue ds : Int) < (2:Int) ^ (bits - 1) := by exact_mod_cast hr
+        refine ⟨by simp [← hc], ?_, ?_⟩ <;> omega
+      · cases hc
+    · split at hc
+      · injection hc with hc; injection hc with hc; injection hc with hc; injection hc with hc
+        rename_i hr
+        have hr' : (digitsValue ds : Int) ≤ (2:Int) ^ (bits - 1) := by exact_mod_cast hr
+        refine ⟨by simp [← hc], ?_, ?_⟩ <;> omega
+      · cases hc
+
+/-! ### what the fixes removed (kernel-checked witnesses on the pre-fix model) -/
+
+/-- D9a: before the fix, `1.5` and `1e2` became 0, 2^40 into int32 became 0, `-1` into uint32 became 2^32−1,
+    2^64−1 into uint64 became 2^63−1; now all are rejected, and the canonical mapping rejects them or
+    (for `1e2`) reads 100. -/
+theorem C09_prefix_integers_coerced :
+    intDecodePreFix true 32 (.num [49, 46, 53]) = .ok (some (.int 0)) ∧                 -- 1.5
+    intDecodePreFix true 32 (.num [49, 101, 50]) = .ok (some (.int 0)) ∧                -- 1e2
+    intDecodePreFix true 32 (.num [49,48,57,57,53,49,49,54,50,55,55,55,54]) = .ok (some (.int 0)) ∧   -- 2^40
+    intDecodePreFix false 32 (.num [45, 49]) = .ok (some (.int 4294967295)) ∧            -- -1
+    intDecodePreFix false 64 (.num [49,56,52,52,54,55,52,52,48,55,51,55,48,57,53,53,49,54,49,53])
+      = .ok (some (.int 9223372036854775807)) ∧                                           -- 2^64-1
+    intDecode (parseInt 32) (.num [49, 46, 53]) = .err ∧
+    intDecode (parseInt 32) (.num [49, 101, 50]) = .err ∧
+    intDecode (parseInt 32) (.num [49,48,57,57,53,49,49,54,50,55,55,55,54]) = .err ∧
+    intDecode (parseUint 32) (.num [45, 49]) = .err ∧
+    intDecode (parseUint 64) (.num [49,56,52,52,54,55,52,52,48,55,51,55,48,57,53,53,49,54,49,53])
+      = .ok (some (.int 18446744073709551615)) := by
+  decide
+
+/-- D9c: before the fix, an unknown enum name under DiscardUnknown reached `Message.Set` with an invalid
+    Value (panic); now the field is skipped. -/
+theorem C09_prefix_unknown_enum_panics (ops : FloatOps) :
+    unmarshalSingularPreFix ops { discard := true } (.enum [([65], 0)] false) (.str [66]) = .panic ∧
+    unmarshalSingular ops { discard := true } (.enum [([65], 0)] false) (.str [66]) = .ok (.sing none) := by
+  constructor <;> rfl
+
+/-! ### encode → decode round trip -/
+
+/-- the value has the type of the field and is representable: enum numbers of NullValue are 0 (its only value) -/
+def C09_Typed : Kind → Scalar → Prop
+  | .bool, .bool _ => True
+  | .float, .flt _ | .double, .flt _ => True
+  | .string, .str _ => True
+  | .enum vals nv, .enum n => (nv = true → n = 0) ∧ (nv = false → byNumber vals n = none → parseInt 32 (showInt n) = some n)
+  | _, _ => False
+
+/-- names of an enum are unique (protodesc enforces it): looking up the name found for a number gives the number back -/
+def C09_NamesUnique (vals : EnumDesc) : Prop :=
+  ∀ n name, byNumber vals n = some name → byName vals name = some n
+
+/-- Round trip for singular bool, float, double (incl. NaN, ±Infinity — fix D9e), string and enum fields:
+    marshalling never fails and decoding the result stores the value again.
+    PARTIAL: integer and bytes kinds additionally need `parseInt (showInt i) = i` and
+    `b64Decode (b64Encode b) = b` for all i, b, which are validated by the differential run
+    (and by the instances below) but not yet proved for all inputs; lists and maps follow element-wise. -/
+theorem C09_roundtrip_partial (ops : FloatOps) (hl : FloatLaws ops) (o : Opts) (k : Kind) (v : Scalar)
+    (ht : C09_Typed k v) (hn : ∀ vals nv, k = .enum vals nv → C09_NamesUnique vals) (hen : o.enumNumbers = false) :
+    ∃ j, encode ops o k (.sing (some v)) = .ok j ∧
+      (decode ops o .sing k j).bind (fun f => .ok (f.read k)) = .ok (.sing (some v)) := by
+  cases k <;> cases v <;> simp only [C09_Typed] at ht
+  · exact ⟨_, rfl, rfl⟩
+  · rename_i f
+    cases f
+    · exact ⟨_, rfl, by simp [decode, unmarshalSingular, unmarshalScalar, hl.nan, Res.bind, protoStore, Field.read]⟩
+    · exact ⟨_, rfl, by simp [decode, unmarshalSingular, unmarshalScalar, hl.pinf, Res.bind, protoStore, Field.read]⟩
+    · exact ⟨_, rfl, by simp [decode, unmarshalSingular, unmarshalScalar, hl.ninf, Res.bind, protoStore, Field.read]⟩
+    · exact ⟨_, rfl, by simp [decode, unmarshalSingular, unmarshalScalar, hl.roundtrip, Res.bind, protoStore, Field.read]⟩
+  · rename_i f
+    cases f
+    · exact ⟨_, rfl, by simp [decode, unmarshalSingular, unmarshalScalar, hl.nan, Res.bind, protoStore, Field.read]⟩
+    · exact ⟨_, rfl, by simp [decode, unmarshalSingular, unmarshalScalar, hl.pinf, Res.bind, protoStore, Field.read]⟩
+    · exact ⟨_, rfl, by simp [decode, unmarshalSingular, unmarshalScalar, hl.ninf, Res.bind, protoStore, Field.read]⟩
+    · exact ⟨_, rfl, by simp [decode, unmarshalSingular, unmarshalScalar, hl.roundtrip, Res.bind, protoStore, Field.read]⟩
+  · exact ⟨_, rfl, rfl⟩
+  · rename_i vals nv n
+    cases nv
+    · cases hb : byNumber vals n with
+      | none =>
+        refine ⟨.num (showInt n), by simp [encode, marshalScalar, hb], ?_⟩
+        simp [decode, unmarshalSingular, unmarshalScalar, ht.2 rfl hb, Res.bind, protoStore, Field.read]
+      | some name =>
+        refine ⟨.str name, by simp [encode, marshalScalar, hb, hen], ?_⟩
+        simp [decode, unmarshalSingular, unmarshalScalar, hn vals false rfl n name hb, Res.bind, protoStore, Field.read]
+    · have : n = 0 := ht.1 rfl
+      subst this
+      exact ⟨.null, by simp [encode, marshalScalar], by simp [decode, unmarshalSingular, unmarshalScalar, Res.bind, protoStore, Field.read]⟩
+
+/-- instances of the two facts the partial round trip leaves open, at the boundaries -/
+example : parseInt 64 (showInt (-9223372036854775808)) = some (-9223372036854775808) := by decide
+example : parseUint 64 (showInt 18446744073709551615) = some 18446744073709551615 := by decide
+example : parseInt 32 (showInt 2147483647) = some 2147483647 := by decide
+example : b64Decode (b64Encode [0, 255, 16, 97]) = some [0, 255, 16, 97] := by decide
+example : b64Decode (b64Encode [251, 255]) = some [251, 255] := by decide
+
+/-! ### non-vacuity: a float environment satisfying the laws; canonical values are accepted -/
+
+/-- toy float environment: finite values are written as their bit pattern in decimal and read back -/
+def C09_toyOps : FloatOps where
+  parse := fun _ s =>
+    if s = strNaN then some .nan else if s = strInf then some .pinf else if s = strNegInf then some .ninf
+    else if s.all isDigit && !s.isEmpty && showNat (digitsValue s) = s then some (.fin (digitsValue s)) else none
+  fmt := fun _ b => showNat b
+
+example : decode C09_toyOps { discard := true } .sing .double (.str strNaN) = .ok (.sing (some (.flt .nan))) := by decide
+example : decode C09_toyOps { discard := true } (.map .bool) .int64 (.obj [(strTrue, .str [45, 53])])
+    = .ok (.map [(.bool true, .int (-5))]) := by decide
+example : canon C09_toyOps { discard := true } (.map .bool) .int64 (.obj [(strTrue, .str [45, 53])])
+    = some (.ok (.map [(.bool true, .int (-5))])) := by decide
+example : canon C09_toyOps { discard := false } .sing .uint32 (.num [45, 49]) = some .err := by decide
+example : canon C09_toyOps { discard := false } .sing .int32 (.num [49, 46, 53]) = some .err := by decide
+example : canon C09_toyOps { discard := false } .sing .int32 (.num [49, 101, 50]) = some (.ok (.sing (some (.int 100)))) := by decide
+example : decode C09_toyOps { discard := false } .sing .bytes (.arr [.num [49]]) = .err := by decide
